@@ -250,12 +250,14 @@ def compare_shard(suite, shard, outs, stats, divs, maxdiv=200, collect=None, sat
         m, mi = nxt(ml, mi); i, ii = nxt(il, ii)
         got.append(i)
         if i.startswith('<skipped'): pass
-        elif not broken and m != i and not (i.startswith('<missing') and not was_ok) and len(divs) < maxdiv:
-            divs.append(Div(suite, header, cfg, ops, len(ops), 'tie', m, i)); divs[-1].rules_ok = rules
-        elif broken and m != i and m.startswith('live=') and i.startswith('live=') and all_ok and len(divs) < maxdiv * 4 + 400:
-            # the objects still alive at the end (leaks, double destruction) of a history that stayed within the contract: a departure
-            # from the Spec's ledger in its own right, also when an earlier line of the history already differed
-            divs.append(Div(suite, header, cfg, ops, len(ops), 'spec', m, i)); divs[-1].rules_ok = rules
+        else:
+            if not broken and m != i and not (i.startswith('<missing') and not was_ok) and len(divs) < maxdiv:
+                divs.append(Div(suite, header, cfg, ops, len(ops), 'tie', m, i)); divs[-1].rules_ok = rules
+            if m != i and m.startswith('live=') and i.startswith('live=') and all_ok and len(divs) < maxdiv * 4 + 400:
+                # the objects still alive at the end (leaks, double destruction) of a history that stayed within the contract: a departure
+                # from the Spec's ledger in its own right - when it is the ONLY line of the history that differs (a value that is
+                # never dropped, `C14-22`) and when an earlier line of the history already differed
+                divs.append(Div(suite, header, cfg, ops, len(ops), 'spec', m, i)); divs[-1].rules_ok = rules
         if mi < len(ml) and ml[mi].startswith('maps='):
             # vmem: mappings of the buffer's shared object that remain after it was released
             m, mi = nxt(ml, mi); i, ii = nxt(il, ii)
